@@ -40,7 +40,7 @@ CONSTANTS MaxSeq,      \* number of requests
           EvictOldest, \* design switch, see above
           Classes      \* input classes explored (handling is uniform in the class: any subset of AllClasses will do)
 
-AllClasses == {"obsTextHeader", "repeatedHeaders", "longUrl", "utf16OddReply", "longNonAsciiErrorReply", "wrongContentType",
+AllClasses == {"obsTextHeader", "repeatedHeaders", "longUrl", "utf16OddReply", "longNonAsciiErrorReply", "wrongContentType", "overstatedLength",
             "multibyteCmdline", "multibyteUserName", "clientAbandons", "requesterCancelled", "eventQueueSaturated",
             "keyKeeperNotified", "descriptorExhaustion", "targetForms", "connectRefusedByHost", "connectAcceptedByHost", "danglingRuleNames", "plain"}
 
